@@ -55,11 +55,14 @@ for it in range(R.n(25, 400)):
     R.check('alignment/own+delayed-background', dict(c, reqs=reqs), good and worst < 1e-6, worst)
     A.set_time(5.0)
     R.check('reset/clears-cache', c, A.start_obs and all(an.bg_cache == [None, None] for an in A.antennas) and all(b.t_start == 5.0 for b in A.bg_streams), None)
-    r = mx + 3
-    o1 = A.get_samples(r)
+    # the new observation is read in several requests (the caches are used again from the second one on)
+    rs = [mx + 3, mx + 1, mx + 4]
+    r = sum(rs)
+    o1 = np.concatenate([A.get_samples(q) for q in rs], axis=2)
     B.set_time(5.0)
     bg2 = [np.array(b.get_samples(r + mx)) for b in B.bg_streams]
     own2 = [[np.array(st.get_samples(r)) for st in an.streams] for an in B.antennas]
     w2 = max(float(np.max(np.abs(o1[i][p] - (own2[i][p] + bg2[p][mx - dl[i]: mx - dl[i] + r])))) for i in range(nant) for p in range(npol))
-    R.check('reset/same-alignment-after-reset', c, w2 < 1e-6, w2)
+    R.check('reset/same-alignment-after-reset', dict(c, reqs_after_reset=rs), w2 < 1e-6, w2)
+    R.check('reset/every-antenna-owns-its-cache-list', c, len({id(an.bg_cache) for an in A.antennas}) == nant, None)
 R.finish()
